@@ -112,6 +112,9 @@ func (m *TapeManager) openOrReuseReader() error {
 
 		r, rr, err := OpenTapeReadOnly(m.drive)
 		if err != nil {
+			// Release the drive again, otherwise every following operation would block forever
+			m.physicalLock.Unlock()
+
 			return err
 		}
 
